@@ -510,6 +510,7 @@ def run(ctx: Ctx, rep: Report) -> None:
     rep.rule("C15-R1", "every value returned or yielded by a public wrapper method is free of raw (x690 / ObjectIdentifier / VarBind) leaves, keys included", floor=8)
     rep.rule("C15-R2", "conversions iterate the raw result once, unfiltered and in order", floor=6)
     rep.rule("C15-R3", "every SNMP value type wraps a builtin python type", floor=7)
+    rep.rule("C15-R5", "values are sliced out of immutable bytes: no bytearray / memoryview is handed to the x690 decoder (lazily decoded OCTET STRINGs would come out as bytearray)", floor=3)
     rep.rule("C15-R4", "the wrapper hands its arguments to the raw client one-to-one: OIDs converted element by element (complete, in order), same-named options forwarded unchanged", floor=6)
     rep.assumptions += ["BulkResult (a plain dataclass of two dicts) is the documented container of bulkget and is accepted as such; its fields must be builtin"]
     wrapper = ctx.wrapper()
@@ -536,6 +537,21 @@ def run(ctx: Ctx, rep: Report) -> None:
         issues = [(n, msg) for m, n, msg in ev.shape_issues if m == meth]
         rep.check(not issues, "C15-R2", site, f"{meth.name}: the raw result is converted item by item, unfiltered and in order", "; ".join(f"line {getattr(n, 'lineno', '?')}: {msg}" for n, msg in issues), key=f"{meth.key}|shape")
     check_forwarding(ctx, rep, wrapper, client, ev.client_attr)
+    # R5: buffers given to the decoder
+    checked = 0
+    for fn in ctx.u.functions.values():
+        if fn.module.external:
+            continue
+        fdefs = ctx.defs(fn)
+        for node in own_nodes(fn.node):
+            if not (isinstance(node, ast.Call) and node.args and ctx.r.call_resolves_to(fn, node, "x690.types:decode")):
+                continue
+            checked += 1
+            arg = strip_casts(node.args[0])
+            sources = fdefs.all_values(arg.id) if isinstance(arg, ast.Name) else [arg]
+            mutable = [v for v in sources if isinstance(strip_casts(v), ast.Call) and norm(strip_casts(v).func).split(".")[-1] in ("bytearray", "memoryview")]
+            rep.check(not mutable, "C15-R5", fn.site(node), f"{fn.qualname}: the buffer decoded is the received bytes object (or bytes derived from it)", f"`{norm(arg)}` may be {[norm(v)[:40] for v in mutable]}", key=f"{fn.key}|mutable-decode-buffer")
+    rep.analysed["decode_calls_checked"] = checked
     # from_raw
     pyvb = ctx.u.cls("puresnmp.varbind:PyVarBind")
     fr = pyvb.methods.get("from_raw")
